@@ -3,10 +3,10 @@ _SRCS = ["harness/c15_idl_pfc.c", "harness/c15_idl.c", "harness/c15_pfc.c"]
 SPEC = {
     "id": "C15",
     "level": "exploration",
-    "level_text": "Generated IDL format A packet streams (all FT option sets, 0-6 address nibbles, explicit/implicit continuity index, data length byte, dummy-byte stuffing at every alignment, repeats, foreign channels/addresses/formats, 0-4 dropped / CRC-damaged / Hamming-damaged packets) and Page Format Clear page sequences (blocks of 0-2047 bytes laid over packet and page boundaries at every alignment, fillers, other pages/streams/magazines in between, dropped and Hamming-damaged packets and headers) are fed to the real demultiplexers through both feed interfaces under ASan+UBSan, from exact-size heap buffers. Independent packetisers written from EN 300 708 know what was sent; every callback is checked against it (bytes, order, no duplicates, nothing foreign, nothing from damaged packets, DATA_LOST / DEPENDENT flags, exactly the damaged PFC blocks missing). Held on the executions produced, not a proof.",
+    "level_text": "Generated IDL format A packet streams (all FT option sets, 0-6 address nibbles, explicit/implicit continuity index, data length byte, dummy-byte stuffing at every alignment, repeats, foreign channels/addresses/formats, 0-4 dropped / CRC-damaged / Hamming-damaged packets) and Page Format Clear page sequences (blocks of 0-2047 bytes laid over packet and page boundaries at every alignment, fillers, other pages/streams/magazines in between, dropped and Hamming-damaged packets and headers) are fed to the real demultiplexers through both feed interfaces under ASan+UBSan, from exact-size heap buffers. Independent packetisers written from EN 300 708 know what was sent; every callback is checked against it (bytes, order, no duplicates, nothing foreign, nothing from damaged packets, DATA_LOST / DEPENDENT flags, exactly the damaged PFC blocks missing). Long streams (jobs idl_long, pfc_long): 40-300 logical IDL packets per service so that the continuity index wraps, losses of 1, 2, 15-17, 255-257, 512 packets (a loss of a multiple of 256 packets cannot be seen in an 8 bit continuity index: neither demanded nor forbidden), 30-200 PFC blocks over many pages with up to 8 faults, vbi_idl_demux_reset / vbi_pfc_demux_reset between packets, callbacks returning FALSE, feed_frame calls with several packets of the stream, two contexts (two services / two streams, for PFC also in parallel magazine transmission) fed from one multiplex. Held on the executions produced, not a proof.",
     "level_note": "Trusted: the packetisers, Hamming 8/4 coder, bit-serial CRC and reference parsers in harness/c15_*.c (self-tested on hand vectors, cross-checked against each other on every stream), the readings of EN 300 708 listed under assumptions, gcc ASan/UBSan runtimes.",
     "technique": "runtime monitoring: differential oracle (independent EN 300 708 IDL-A and PFC packetisers + reference parsers) over generated fault-injected packet streams, ASan/UBSan bounds-strict, exact-size input buffers",
-    "rule": "IDL: one case = one service configuration (channel, FT options, address) with 1-12 logical packets, their repeats, foreign packets in between and 0-4 faults; signature = (FT option set, address length, 00/FF run length at the end of a data area, dummy count bucket, repeats used, fault kinds, ambiguous run start). PFC: one case = 1-10 blocks laid over pages of 1-25 packets with other traffic and 0-3 faults; signature = (block size class, alignment class of block end / structure header relative to the packet end, page span, fault kinds). Every case feeds the library, so none is trivial.",
+    "rule": "Long modes: one case = one or two services / streams with 40-300 logical packets or 30-200 blocks; signature = (options, one/two contexts, gap classes, index wraps, fault classes, reset, callback FALSE). IDL: one case = one service configuration (channel, FT options, address) with 1-12 logical packets, their repeats, foreign packets in between and 0-4 faults; signature = (FT option set, address length, 00/FF run length at the end of a data area, dummy count bucket, repeats used, fault kinds, ambiguous run start). PFC: one case = 1-10 blocks laid over pages of 1-25 packets with other traffic and 0-3 faults; signature = (block size class, alignment class of block end / structure header relative to the packet end, page span, fault kinds). Every case feeds the library, so none is trivial.",
     "assumptions": [
         "EN 300 708 6.5.7.1: a dummy byte follows eight consecutive equal bytes 0x00/0xFF counted over the CRC-protected byte group [explicit CI][DL]user data as it appears on the wire; the dummy byte itself is neither 0x00 nor 0xFF; DL counts the bytes occupied in the user data area including dummy bytes (standard text not available offline; the rule is the one quoted in idl_demux.c)",
         "implicit continuity index: both CRC check bytes are XORed with CI (receiver remainder reads CI twice), as idl_demux.c reads 6.5.5",
@@ -14,6 +14,11 @@ SPEC = {
         "repeats (RI) of a logical packet are transmitted before the next logical packet of the same service; RI bytes are not corrupted",
         "PFC: faults are packet granular (dropped packet/header, uncorrectable Hamming error in packet address, header, block pointer, separator, structure header or filler); block payload bytes are not protected and are not corrupted",
         "a zero-length PFC block may or may not produce a callback",
+        "vbi_idl_demux_reset: the documentation does not say whether the first delivery after a reset carries DATA_LOST - both accepted; a repeat whose original was fed before the reset may or may not be delivered",
+        "vbi_pfc_demux_reset: rows fed after a reset and before the next page header of the stream belong to no known page and must not contribute to a delivery; a block in progress is dropped; blocks starting after that header are due",
+        "callback returning FALSE: feed / feed_frame return FALSE (documented); IDL: the packet counts as delivered; PFC: blocks that start between that callback and the next page header may or may not be delivered (not documented), everything after that header is due",
+        "feed_frame stops at the first line for which feed returns FALSE (as every feed_frame of the library does); whether it should go on is not judged: a frame ends after a damaged packet, and after a callback returned FALSE the remaining lines are fed with a further call",
+        "long IDL streams: the first two user bytes of every packet identify service and packet (needed to attribute a callback to a line of a frame with several packets); two PFC streams in one magazine: a page whose header is lost is lost as a whole (its rows would belong to the other stream's page for every receiver)",
     ],
     "jobs": [
         {"name": "idl", "harness": "c15_idl_pfc", "srcs": _SRCS, "flavour": "asan", "mode": "idl",
@@ -23,9 +28,9 @@ SPEC = {
         # long streams: continuity index wraps, several faults far apart, reset() mid-stream, callbacks returning
         # FALSE, frames with several packets of the stream, two contexts on one multiplex
         {"name": "idl_long", "harness": "c15_idl_pfc", "srcs": _SRCS, "flavour": "asan", "mode": "idl-long",
-         "cases": {"quick": 16000, "thorough": 640000}, "budget": 20},
+         "cases": {"quick": 16000, "thorough": 320000}, "budget": 20},
         {"name": "pfc_long", "harness": "c15_idl_pfc", "srcs": _SRCS, "flavour": "asan", "mode": "pfc-long",
-         "cases": {"quick": 24000, "thorough": 960000}, "budget": 20},
+         "cases": {"quick": 24000, "thorough": 480000}, "budget": 20},
     ],
     "min_distinct": 300,
     "min_counters": {
@@ -42,6 +47,6 @@ SPEC = {
         "idl_long_two_contexts": 100, "idl_long_frames_with_several_service_packets": 1000,
         "pfc_long_streams": 1000, "pfc_long_blocks_delivered_after_a_fault": 1000, "pfc_long_resets": 100,
         "pfc_long_reset_with_block_in_progress": 100, "pfc_long_callback_false": 100, "pfc_long_two_contexts": 100,
-        "pfc_long_frames_with_several_rows": 1000, "pfc_long_block_spans_pages": 100,
+        "pfc_long_frames_with_several_rows": 1000, "pfc_long_block_spans_pages": 100, "pfc_long_parallel_transmission": 100,
     },
 }
